@@ -652,7 +652,8 @@ func (s *Sched) handle(m msg) bool {
 		t.reply = m.reply
 		t.st = tsParked
 		t.point = m.name
-		if m.a > 0 && !strings.HasSuffix(m.name, ".release") {
+		if m.a > 0 && !strings.HasSuffix(m.name, ".release") && (strings.HasPrefix(m.name, "enc.") || strings.HasPrefix(m.name, "dec.")) {
+			// only the points of the block tasks carry a block id (seq.* carry a stage index)
 			t.BlockID = int(m.a)
 		}
 		s.event(t, m.name, m.a, 0)
